@@ -46,6 +46,10 @@ def run(ck):
     from ..report import RuleView
     from . import c17, c08
     c17.run(RuleView(ck, {"C17.2": "C02.8"}))
+    ck.clause("C02.10", "every record's header comes from AlignmentResultRow.create - first/last listed pair, strand-aware - never from "
+                        "a raw constructor call with start/end copied from somewhere else (as C04.2)")
+    from . import c04 as _c04
+    _c04.ownership(RuleView(ck, {"C04.2": "C02.10"}))
     ck.clause("C02.9", "RefContigID names the map of every listed label: records are joined only on the same reference and strand "
                        "(as C08.4)")
     c08._eligibility(ck, {}, None, rule="C02.9", wiring=False)
